@@ -59,9 +59,10 @@ def snap(s):
         cNhex(p["root"]), cN(p["idx"]), clist([cNhex(x) for x in p.get("sibs") or []]),
         copt(cNhex(p["calc"]) if p.get("calc") else None), copt(cN(p["byler"]) if p["byler"] >= 0 else None))
         for p in s.get("proofs") or []])
-    return "mkSnap %s %s (%d)%%Z %s %s %s %s %s %s %s %s %s" % (
+    extra = clist([cNhex(x["d"]) for x in s.get("extra") or []])
+    return "mkSnap %s %s (%d)%%Z %s %s %s %s %s %s %s %s %s %s" % (
         cN(s["last"]), cbool(s["halted"]), s["mem_last"], roots, bridges, cbool(bool(s.get("bridges_err"))),
-        rows3(s.get("claims")), rows3(s.get("tm")), rows3(s.get("legacy")), bpg, rows3(s.get("claims_paged")), proofs)
+        rows3(s.get("claims")), rows3(s.get("tm")), rows3(s.get("legacy")), bpg, rows3(s.get("claims_paged")), proofs, extra)
 
 
 def codes(rs):
